@@ -143,8 +143,7 @@ parseChunks:
 				return nil, fmt.Errorf("invalid ICC profile chunk length")
 			}
 
-			chunkData := make([]byte, ch.Length-offset)
-			_, err = io.ReadFull(r, chunkData)
+			chunkData, err := binary.ReadBytes(r, ch.Length-offset)
 			if err == io.ErrUnexpectedEOF {
 				return nil, fmt.Errorf("unexpected EOF reading ICC profile chunk")
 			}
